@@ -301,18 +301,37 @@ func c05Top(c *ev.Collector, rt *rapid.T, switchSide bool) {
 	if c.WantSample() {
 		c.Sample(map[string]any{"kind": kind, "bytes": len(b), "hex": clipHex(b, 96)})
 	}
-	dec, how, err, pf, pm := decodeTop(lib, b)
-	rep := map[string]any{"kind": kind, "hex": hx(b)}
+	extent := len(b)
+	in := b
+	if !readsToEnd[strings.TrimPrefix(kind, "sw.")] && !c.IsKnown("C05|"+kind+"|decode-error") && gen.Pick(rt, "frame_followed", 3) == 0 {
+		// position for top-level messages: the next frame of the stream sits right behind this one in the
+		// buffer; the decoder must stop where the header length says
+		in = append(append([]byte{}, b...), 4, 2, 0, 16, 0xaa, 0xbb, 0xcc, 0xdd, 1, 2, 3, 4, 5, 6, 7, 8)
+		c.Label("frame_followed_by_another")
+	}
+	dec, how, err, pf, pm := decodeTop(lib, in)
+	rep := map[string]any{"kind": kind, "hex": hx(in)}
+	pos := ""
+	if len(in) > extent {
+		pos = "|followed"
+	}
 	if pf != "" {
-		c.Report(rt, "C05|"+kind+"|decode-panic|"+pf, how+": "+pm+" :: "+hx(b), rep)
+		c.Report(rt, "C05|"+kind+"|decode-panic|"+pf+pos, how+": "+pm+" :: "+hx(in), rep)
 		return
 	}
 	if err != nil {
-		c.Report(rt, "C05|"+kind+"|decode-error", how+": "+err.Error()+" :: "+hx(b), rep)
+		c.Report(rt, "C05|"+kind+"|decode-error"+pos, how+": "+err.Error()+" :: "+hx(in), rep)
 		return
 	}
-	roundTrip(c, rt, kind, lib, b, dec, how, len(b))
+	roundTrip(c, rt, kind+pos, lib, in, dec, how, extent)
 }
+
+// readsToEnd: top-level kinds whose decoders consume the whole slice they are
+// given instead of stopping at the header length (element list / payload to the
+// end of the input). The stream and the bundle decoder always hand them exactly
+// one frame, so this is not judged; every other kind is also decoded with the
+// next frame behind it.
+var readsToEnd = map[string]bool{"hello": true, "error": true, "error_exp": true, "features_reply": true, "packet_in": true, "packet_out": true, "group_mod": true, "port_mod": true, "mp_request": true}
 
 // c05Decoded: values that only the decoder can produce (ONF experimenter-class
 // match fields, hello with several elements, echo, stats records ...): a
